@@ -280,11 +280,15 @@ func caller(skip int) string {
 //go:norace
 func (s *Sched) enabledList(running *G) []*G {
 	var out, low []*G
-	if running != nil && !running.Low && running.op != nil && !running.done && (running.hand || running.op.Enabled()) {
+	// an environment thread that is in the middle of one of its steps (a Close call, a caller being started: its
+	// pending operation is the program's, not its own gate) is the running thread like any other: letting the step
+	// START early is the deviation, not every operation inside it
+	midStep := running != nil && running.Low && running.op != nil && !strings.HasPrefix(running.op.Kind(), "env:")
+	if running != nil && (!running.Low || midStep) && running.op != nil && !running.done && (running.hand || running.op.Enabled()) {
 		out = append(out, running)
 	}
 	for _, g := range s.gs {
-		if (g == running && !g.Low) || g.done || g.op == nil {
+		if (g == running && (!g.Low || midStep)) || g.done || g.op == nil {
 			continue
 		}
 		if g.hand || g.op.Enabled() {
